@@ -7,7 +7,7 @@ RULE = ('per (suite, version) pair (all 75): clean handshake, receiver snapshott
         '(drop, duplicate, swap adjacent, replay each earlier record, truncation at every byte, cross-connection splice), records forged '
         'by the independent record layer (every admissible CBC padding length 0..255 conformant -> must be accepted; each with every single '
         'wrong padding byte, wrong MAC bytes, padding longer than the record, wrong sequence number -> must be rejected; AEAD: random explicit '
-        'nonce conformant, altered nonce, wrong/reused sequence number, every wrong tag byte, truncated tags, exact duplicate), records injected out of thin air at every record boundary (before the first and after the last too): types '
+        'nonce conformant, altered nonce, wrong/reused sequence number, every wrong tag byte, truncated tags, exact duplicate; sequence numbers differing from the right one in bit 16/32/48/63; conformant and one-wrong-byte (MAC, tag, padding) records of 0..16384 plaintext bytes), records injected out of thin air at every record boundary (before the first and after the last too): types '
         '20-24, 0, 255 x header-only and short bodies 0..64 bytes x record versions (negotiated, 3.0, 3.4) -> must fail as soon as received, 200 random '
         'double edits. A fault is non-trivial when it changes the stream; distinct = faults (each is a distinct stream) are counted per class; '
         'distinct_nontrivial reports distinct (suite,version,receiver role,layout) configurations x fault classes.')
@@ -18,7 +18,7 @@ ASSUMPTIONS = [
 ]
 EVAL = ['faults']
 DISTINCT = ['config', 'inject_shape']
-REQUIRED = ['faults', 'canary_runs', 'faults_bitflip', 'faults_edit', 'faults_truncate', 'faults_splice', 'faults_inject',
+REQUIRED = ['faults', 'canary_runs', 'faults_bitflip', 'faults_edit', 'faults_truncate', 'faults_splice', 'faults_inject', 'forged_long_records',
             'forged_conformant', 'forged_bad', 'faults_rejected_with_error', 'conformant_accepted']
 EXHAUSTIVE = 'every bit of every record of each short session; every record index for each edit operation'
 NW = 16
@@ -31,6 +31,6 @@ def jobs(tier, seed):
 
 
 def distinct_count(res):
-    classes = sum(1 for k in ('faults_bitflip', 'faults_edit', 'faults_truncate', 'faults_splice', 'faults_inject', 'forged_conformant',
+    classes = sum(1 for k in ('faults_bitflip', 'faults_edit', 'faults_truncate', 'faults_splice', 'faults_inject', 'forged_long_records', 'forged_conformant',
                               'forged_bad', 'faults_double') if res.sums.get(k, 0) > 0)
     return len(res.distinct.get('config', ())) * classes
